@@ -599,6 +599,18 @@ func TestVerifC02Restore(t *testing.T) {
 				if i >= n {
 					return nil
 				}
+				if plan.SkewNS >= int64(24*time.Hour) { // aim: an expiring token before the cut, the reaper after it
+					if i == k-1 && rapid.IntRange(0, 9).Draw(t, "aimexptoken") >= 3 {
+						if cmd := g.w.DrawExpiringToken(t); cmd != nil {
+							return cmd
+						}
+					}
+					if i == k+plan.Late+1 && rapid.IntRange(0, 9).Draw(t, "aimreap") >= 4 {
+						if cmd := g.w.DrawReap(t); cmd != nil {
+							return cmd
+						}
+					}
+				}
 				return g.next(t)
 			})
 		})
